@@ -20,5 +20,5 @@ Extraction "xzmodel"
   Outq.run Outq.step Outq.outq0
   RcEnc.encode Lzma.prob_update Lzma.rc_init Lzma.rc_decode_bit Lzma.rc_direct1 Lzma.rc_normalize
   LzmaRun.enc_run LzmaRun.z_init LzmaEnc.enc_eopm Lzma.symbol Lzma.lz_start Lzma.rc_bit
-  XzEnc.stream_bytes Lzma2Enc.kl_start Lzma2Enc.kl_props Lzma2Enc.chunk_after Lzma2Enc.chunks_bytes Lzma2Enc.norm Lzma2.l2_init
+  XzEnc.stream_bytes XzEnc.b_data Lzma2Enc.kl_start Lzma2Enc.kl_props Lzma2Enc.chunk_after Lzma2Enc.chunks_bytes Lzma2Enc.norm Lzma2.l2_init
   Lzma.P_IS_MATCH Lzma.P_IS_REP Lzma.P_IS_REP0 Lzma.P_IS_REP0_LONG Lzma.P_IS_REP1 Lzma.P_IS_REP2.
